@@ -260,7 +260,7 @@ def deterministic_uuids():
         _uuid.uuid1 = real
 
 
-def explore_step(pres, fn, backend="polars", extra_facts=(), sql_state_kw=None, max_paths=4000):
+def explore_step(pres, fn, backend="polars", extra_facts=(), sql_state_kw=None, max_paths=4000, probe=None):
     """Symbolically execute one verb step.  fn(pres, tables) -> new Table.
     Returns (paths, wit): each path value is ("rejected", exc) or ("ok", new, state, aux) where
     state is the backend state computed by the real compile_ast for the new node; aux holds the
@@ -289,10 +289,12 @@ def explore_step(pres, fn, backend="polars", extra_facts=(), sql_state_kw=None, 
         tables = [p.table() for p in pres]
         ctxm = polars_step(pres) if backend == "polars" else sql_step(pres, sql_state_kw)
         with deterministic_uuids(), ctxm as real_compile:
+            tok = probe[0](tables) if probe else None
             try:
                 new = fn(pres, tables)
             except rejections() as e:
-                return ("rejected", e, tables)
+                return ("rejected", e, tables, probe[1](tok, tables) if probe else None)
+            probed = probe[1](tok, tables) if probe else None
             node = new._ast
             if backend == "polars":
                 state = real_compile(node)
@@ -308,7 +310,7 @@ def explore_step(pres, fn, backend="polars", extra_facts=(), sql_state_kw=None, 
                     needed = {inv[u]: 1 for u in needed}
                 state = real_compile(node, needed)
                 aux = H.sqlite_backend.SqliteImpl.compile_query(*state)
-            return ("ok", new, state, aux, tables)
+            return ("ok", new, state, aux, tables, probed)
 
     paths = explore(body, base_pc=facts, catch=(Exception,), max_paths=max_paths)
     return paths, wit
